@@ -227,8 +227,9 @@ pub fn placements(out: &RunOut, target_op: usize) -> Vec<Placement> {
             }
             continue;
         }
-        // a configuration refusal (E universe: openat2 -> ENOSYS) is not a placement
-        if ev.answer != crate::sup::Answer::Continue {
+        // a configuration refusal (E universe: openat2 -> ENOSYS) is not a placement;
+        // neither are calls the supervisor always answers itself (getrandom)
+        if ev.config_refusal || ev.nr == libc::SYS_getrandom {
             continue;
         }
         for f in fault_catalogue(ev.nr) {
@@ -237,7 +238,7 @@ pub fn placements(out: &RunOut, target_op: usize) -> Vec<Placement> {
         if is_fd_creating(ev.nr, &ev.args) {
             v.push(Placement::Sticky(ev.step));
         }
-        if ev.nr == libc::SYS_openat2 && ev.answer == crate::sup::Answer::Continue {
+        if ev.nr == libc::SYS_openat2 && !ev.config_refusal {
             for k in [1usize, 2, 15, 16, 17, 20] {
                 v.push(Placement::Eagain(openat2_before + n_openat2, k));
             }
